@@ -28,6 +28,11 @@ def parse(files):
   return passed - failed, failed
 
 
+def _untracked(tree):
+  r = subprocess.run(["git", "-C", tree, "ls-files", "--others", "--exclude-standard"], capture_output=True, text=True)
+  return set(r.stdout.split("\n")) - {""} if r.returncode == 0 else set()
+
+
 def main(argv):
   tree = "/repo"
   jobs = 12
@@ -55,6 +60,7 @@ def main(argv):
   if not where.startswith(tree + "/"):
     print(f"baseline: pymtl3 imported from {where}, not from {tree}")
     return 2
+  untracked_before = _untracked(tree)
   groups = [files[i::jobs] for i in range(jobs)]
   out = tempfile.mkdtemp(prefix="vt-baseline-", dir="/var/tmp")
   procs = []
@@ -90,6 +96,11 @@ def main(argv):
   for t in missing[:30]: print("  NOT PASSING:", t)
   import shutil
   shutil.rmtree(out, ignore_errors=True)
+  # the tests write generated files (*.v, *.vcd ...) into the cwd, which is the tree: remove what they added, so that a later
+  # "git add" in the tree cannot pick them up
+  for f in sorted(_untracked(tree) - untracked_before):
+    try: os.remove(os.path.join(tree, f))
+    except OSError: pass
   return 1 if missing else 0
 
 
